@@ -76,7 +76,7 @@ let parse_cop (s : string) : Vmcoreinfo.cop =
   | ["CH"] -> CPage (Hooks.PClear Hooks.KShift)
   | ["REL"; b] -> CSetRelease (bytes_of_hex b)
   | ["CREL"] -> CClearRelease
-  | ["VC"] -> CGetVersion
+  | ["VC"] | ["VCR"] | ["VCI"] -> CGetVersion        (* by key, by reference, by iterator position *)
   | ["RAW"; os; b] -> CSetRaw (parse_os os, bytes_of_hex b)
   | ["CRAW"; os] -> CClearRaw (parse_os os)
   | ["QR"; os] -> CGetRaw (parse_os os)
@@ -109,8 +109,8 @@ let parse_defs (s : string) : (string * int * int) list =
 let parse_dop (s : string) : Derived.dop =
   let open Derived in
   match split_on ':' s with
-  | ["G"; i] -> RGet (nat_of_int (int_of_string i))
-  | ["S"; i; v] -> RSet (nat_of_int (int_of_string i), n_of_hex v)
+  | ["G"; i] | ["GR"; i] | ["GI"; i] -> RGet (nat_of_int (int_of_string i))
+  | ["S"; i; v] | ["SR"; i; v] -> RSet (nat_of_int (int_of_string i), n_of_hex v)
   | ["C"; i] -> RClear (nat_of_int (int_of_string i))
   | ["W"; off; b] -> BWrite (nat_of_int (int_of_string off), bytes_of_hex b)
   | ["Z"; b] -> BResize (bytes_of_hex b)
@@ -247,7 +247,7 @@ let spec_ctx (ops : string list) (outs : string list) : string =
         page := pv
     | ["REL"; b] -> if out <> "0" then bad "REL: status %s" out; rel := Some (Some (bytes_of_hex b))
     | ["CREL"] -> rel := Some None
-    | ["VC"] ->
+    | ["VC"] | ["VCR"] | ["VCI"] ->
         (match !rel with
          | Some (Some r) ->
              (match DerivedSpec.release_verdict r with
@@ -347,7 +347,7 @@ let spec_reg be blob defs (ops : string list) (outs : string list) : string =
   let okp out = String.length out >= 1 && (out = "0" || (String.length out > 1 && String.sub out 0 2 = "0:")) in
   Stdlib.List.iter2 (fun op out ->
     match split_on ':' op with
-    | ["G"; i] ->
+    | ["G"; i] | ["GR"; i] | ["GI"; i] ->
         let i = int_of_string i in
         let (name, off, len) = defs.(i) in
         let exp = if not isset.(i) then None else
@@ -358,7 +358,7 @@ let spec_reg be blob defs (ops : string list) (outs : string list) : string =
          | Some v -> if out <> "0:" ^ hex_of_n v then
                bad "G: %s reads %s but the blob holds %s at offset %d" name out (hex_of_n v) off
          | None -> if okp out then bad "G: %s has a value (%s) although the blob cannot supply one" name out)
-    | ["S"; i; v] ->
+    | ["S"; i; v] | ["SR"; i; v] ->
         let i = int_of_string i in
         let (name, off, len) = defs.(i) in
         isset.(i) <- true;
